@@ -1,4 +1,5 @@
 import Sismic.Proofs.Edit
+import Sismic.Proofs.EditInv
 /-!
 # Property C16 — structural editing keeps a statechart sound; failed edits change nothing
 
@@ -8,9 +9,11 @@ raised*, so failure atomicity is a statement about what the code does before it 
 
 Proved here: atomicity of six of the seven operations (for `remove_state`: when the state is
 unknown), the exact effect of the transition operations, of `rename_state` on transitions and of
-`move_state` on states/transitions, and preservation of "transitions start from owners and refer to
-existing states" by `add_transition` / `remove_transition`.  The whole-tree invariants of
-`add/remove/rename/move_state` are decided by the tie only (named in DESIGN.md §6 as `_partial`).
+`move_state` on states/transitions, and — for **all seven** operations, whether they succeed or
+raise, and for every sequence of them starting from an empty `Statechart` — preservation of
+"every transition starts from a state that may own transitions and refers to existing states"
+(`TransOK`, the part of validity that makes `Interpreter` lookups total).  The parent/children
+tree invariants of `add/remove/rename/move_state` are decided by the tie only (DESIGN.md §7).
 -/
 namespace Sismic.C16
 open Sismic.Chart
@@ -64,5 +67,34 @@ theorem transitions_stay_anchored_add (c : Chart) (t : Trans) (hc : c.TransOK) (
 
 theorem transitions_stay_anchored_remove (c : Chart) (t : Trans) (hc : c.TransOK) (h : (c.removeTransition t).1 = .ok ()) :
     (c.removeTransition t).2.TransOK := removeTransition_transOK c t hc h
+
+theorem transitions_stay_anchored_add_state (c : Chart) (s : StateDef) (p : Option Name) (hc : c.TransOK)
+    (h : (c.addState s p).1 = .ok ()) : (c.addState s p).2.TransOK := addState_transOK c s p hc h
+
+/-- `remove_state` drops the transitions from and to the removed subtree, so none dangles -/
+theorem transitions_stay_anchored_remove_state (c : Chart) (n : Name) (hc : c.TransOK)
+    (h : (c.removeState n).1 = .ok ()) : (c.removeState n).2.TransOK := removeState_transOK c n hc h
+
+/-- `rename_state` rewrites both ends of every transition along with the state -/
+theorem transitions_stay_anchored_rename (c : Chart) (a b : Name) (hc : c.TransOK)
+    (h : (c.renameState a b).1 = .ok ()) : (c.renameState a b).2.TransOK := renameState_transOK c a b hc h
+
+theorem transitions_stay_anchored_move (c : Chart) (a b : Name) (hc : c.TransOK)
+    (h : (c.moveState a b).1 = .ok ()) : (c.moveState a b).2.TransOK := moveState_transOK c a b hc h
+
+/-- `rotate_transition` only accepts a new source that may own transitions and a new target that exists -/
+theorem transitions_stay_anchored_rotate (c : Chart) (i : Option Nat) (src : Option Name) (tgt : Option (Option Name))
+    (hc : c.TransOK) (h : (c.rotateTransition i src tgt).1 = .ok ()) :
+    (c.rotateTransition i src tgt).2.TransOK := rotateTransition_transOK c i src tgt hc h
+
+/-- **Whatever a client does with the editing API** — any sequence of the seven operations, each
+    succeeding or raising `StatechartError` and being caught — **transitions stay anchored.** -/
+theorem any_edit_session_keeps_transitions_anchored (ops : List EditOp) (c : Chart) (hc : c.TransOK) :
+    (c.applyEdits ops).TransOK := applyEdits_transOK ops c hc
+
+/-- …in particular in every statechart built from `Statechart(name)` by the API alone. -/
+theorem built_charts_have_anchored_transitions (nm : String) (ops : List EditOp) :
+    (({ name := nm } : Chart).applyEdits ops).TransOK :=
+  applyEdits_transOK ops _ (by intro t ht; simp at ht)
 
 end Sismic.C16
